@@ -79,9 +79,9 @@ def run(tier, seed, replay=None):
     v2model = "mutexv2" if forwarder_forwards_stop_token() else "mutexv2fix"
     parts = [
         AtomicPart("mutexv1", "scn_c15.cpp", LIBS, "mutexv1", V1,
-                   quick=dict(preemptions=2, max_execs=2500), random_execs=(200, 5000)),
+                   quick=dict(preemptions=2, max_execs=1500), random_execs=(150, 5000)),
         AtomicPart("mutexv2", "scn_c15.cpp", LIBS, v2model, V2,
-                   quick=dict(preemptions=2, max_execs=3500), random_execs=(200, 5000)),
+                   quick=dict(preemptions=2, max_execs=3500), random_execs=(150, 5000)),
         ListLinPart(),
     ]
     return run_check(
